@@ -37,10 +37,10 @@ for line in sys.stdin:
         if req["op"] == "header":
             resp = {"ok": oc.get_header()}
         elif req["op"] == "oligo":
-            seq = get_seq(req, "ascii")
+            seq = get_seq(req)
             resp = {"ok": oc.vectorise_one(seq, req["norm"])}
         elif req["op"] == "oligo_batch":
-            seqs = [bytes.fromhex(s).decode("ascii") for s in req["seqs"]]
+            seqs = [bytes.fromhex(s).decode("utf-8") for s in req["seqs"]]
             resp = {"ok": oc.vectorise_batch(seqs, req["norm"])}
         elif req["op"] == "kmers":
             seq = get_seq(req)
